@@ -127,35 +127,36 @@ def gate_agreement(ctx):
         if dc is not None and dc != c["discard"]:
             ctx.violation("gate:cpp-helper:%s" % tag, "m=%d k=%s nis=%s: spec says %s, removeInnovation says %s" %
                           (len(c["y"]), c["k"], c["spec"]["nis"], c["discard"], dc), {"case": c["spec"], "python": dp, "cpp": dc})
-    # (d) ulp band, m = 1
+    # (d) ulp band: the normalised innovation is placed EXACTLY on the floating-point threshold fl(k*sqrt(2m)+m) and a few ulps
+    #     around it, for m = 1, 2, 3, 5, 7.  y = e_1 and Sinv[0][0] = nis make every implementation compute exactly `nis`.
     rnd = random.Random(ctx.seed)
     band = []
     for _ in range(300 if ctx.quick else 5000):
-        k = rnd.choice([0.5, 1.0, 2.5, 3.0, 5.0, 7.25])
-        s = rnd.choice([1.0, 0.5, 2.0, 0.125, 3.0, 0.7])
-        thr = k * math.sqrt(2.0) + 1.0
-        z0 = math.sqrt(thr / s)
-        z = z0
-        steps = rnd.randint(-8, 8)
+        k = rnd.choice([0.5, 1.0, 2.0, 2.5, 3.0, 4.0, 5.0, 7.25])
+        m = rnd.choice([1, 2, 3, 5, 7])
+        thr = k * math.sqrt(2.0 * m) + m
+        nis = thr
+        steps = rnd.randint(-6, 6)
         for _i in range(abs(steps)):
-            z = math.nextafter(z, math.inf if steps > 0 else -math.inf)
-        if rnd.random() < 0.5:
-            z = -z
-        # exact real-number verdict: z^2 s - 1 > k sqrt(2)  <=>  e > 0 and e^2 > 2 k^2
-        e = Fraction(z) ** 2 * Fraction(s) - 1
-        real = e > 0 and e * e > 2 * Fraction(k) ** 2
-        # distance to the boundary in ulps of z: walk from z toward the boundary until the verdict flips
-        dist = 0
-        zz = abs(z)
-        for d in range(1, 40):
-            zz = math.nextafter(zz, 0.0 if real else math.inf)
-            ee = Fraction(zz) ** 2 * Fraction(s) - 1
-            if (ee > 0 and ee * ee > 2 * Fraction(k) ** 2) != real:
-                dist = d
+            nis = math.nextafter(nis, math.inf if steps > 0 else -math.inf)
+        # exact real-number verdict: nis - m > k sqrt(2m)  <=>  e > 0 and e^2 > 2 m k^2
+        def verdict(v):
+            e = Fraction(v) - m
+            return e > 0 and e * e > 2 * m * Fraction(k) ** 2
+        real = verdict(nis)
+        dist = 40
+        vv = nis
+        for dd in range(1, 40):
+            vv = math.nextafter(vv, -math.inf if real else math.inf)
+            if verdict(vv) != real:
+                dist = dd
                 break
-        else:
-            dist = 40
-        band.append({"k": k, "y": [z], "sinv": [s], "real": real, "dist_ulps": dist if real else -dist})
+        y = [1.0] + [0.0] * (m - 1)
+        sinv = [0.0] * (m * m)
+        for i in range(m):
+            sinv[i * m + i] = 1.0
+        sinv[0] = nis
+        band.append({"k": k, "y": y, "sinv": sinv, "real": real, "dist_ulps": dist if real else -dist, "m": m, "nis": nis})
     res = workers.run_tasks([("props.c06", "_py_decisions", (band,), 600)], procs=1)
     pyb = res[0][1]
     cppb, err = _cpp_decisions(ctx, band)
@@ -163,8 +164,8 @@ def gate_agreement(ctx):
     verdicts, tres = trace.validate("Gate_Trace", traces)
     for b, t, v in zip(band, traces, verdicts):
         if v is not None:
-            ctx.violation("gate:ulp-band", "k=%s s=%s z=%r (%d ulps from the boundary, real verdict %s): decisions python=%s c++=%s" %
-                          (b["k"], b["sinv"][0], b["y"][0], b["dist_ulps"], b["real"], t[0]["decisions"][0], t[0]["decisions"][1]), {"event": t[0], "case": b})
+            ctx.violation("gate:ulp-band", "m=%d k=%s nis=%r (%d ulps from the boundary, real verdict %s): decisions python=%s c++=%s" %
+                          (b["m"], b["k"], b["nis"], b["dist_ulps"], b["real"], t[0]["decisions"][0], t[0]["decisions"][1]), {"event": t[0], "case": b})
     inband = sum(1 for b in band if abs(b["dist_ulps"]) <= 2)
     return {"gate_cases": len(cases), "gate_boundary_cases": nb, "ulp_band_events": len(traces), "ulp_events_inside_band": inband,
             "gate_states": r.distinct}
